@@ -3,6 +3,7 @@ package main
 import (
 	"encoding/json"
 	"fmt"
+	"strings"
 	"time"
 
 	"github.com/crillab/gophersat/solver"
@@ -111,7 +112,37 @@ func runAmoCase(o *Oracle, d json.RawMessage, oc *Outcome) {
 			cardBefore++
 		}
 	}
+	// exact differential with the Lean mirror GS.Amo.detect (propositional / cardinality
+	// constraints only: the mirror has no weights)
+	pure := true
+	var beforeEnc []string
+	for _, cl := range pb.Clauses {
+		if cl.PseudoBoolean() {
+			pure = false
+			break
+		}
+		g := fmt.Sprint(cl.Cardinality())
+		for i := 0; i < cl.Len(); i++ {
+			g += fmt.Sprint(" ", cl.Get(i).Int())
+		}
+		beforeEnc = append(beforeEnc, g)
+	}
 	pb.DetectAtMostOne()
+	if pure {
+		var afterEnc []string
+		for _, cl := range pb.Clauses {
+			g := fmt.Sprint(cl.Cardinality())
+			for i := 0; i < cl.Len(); i++ {
+				g += fmt.Sprint(" ", cl.Get(i).Int())
+			}
+			afterEnc = append(afterEnc, g)
+		}
+		want := o.Ask(fmt.Sprintf("amo %d | %s", pb.NbVars, strings.Join(beforeEnc, " ; ")))
+		oc.Corr++
+		if got := strings.Join(afterEnc, " ; "); got != want {
+			oc.Fail("corr", "amo-mirror", entry, "Go produced [%s], the Lean mirror [%s] from [%s]", got, want, strings.Join(beforeEnc, " ; "))
+		}
+	}
 	cardAfter := 0
 	for _, cl := range pb.Clauses {
 		if cl.Cardinality() > 1 {
